@@ -181,6 +181,7 @@ func (r *ltsRun) play(ops []string) string {
 	toks := ltsTokens{}
 	atoi := func(s string) int { n, _ := strconv.Atoi(s); return n }
 	stuck := -1
+	early := -1
 	for i, op := range ops {
 		p := strings.Split(op, ":")
 		switch p[0] {
@@ -310,14 +311,23 @@ func (r *ltsRun) play(ops []string) string {
 			}
 		case "z":
 			time.Sleep(3 * time.Millisecond)
+		case "n":
+			time.Sleep(5 * time.Millisecond)
+			if r.nframes() > atoi(p[1]) {
+				early = i
+			}
 		default:
 			return "bad-op " + op
 		}
-		if stuck >= 0 {
+		if stuck >= 0 || early >= 0 {
 			break
 		}
 	}
 	obs := ""
+	if early >= 0 {
+		r.cleanup()
+		return fmt.Sprintf("early-write@%d", early)
+	}
 	if stuck >= 0 {
 		obs = fmt.Sprintf("stuck@%d", stuck)
 	}
